@@ -207,6 +207,18 @@ Fixpoint all_below (f : Z) (l : list Z) : bool :=
   end.
 Definition final_ok (seqs : list (list Z)) (final : Z) : bool := forallb (all_below final) seqs.
 
+(* two-phase runs: all threads make calls, meet at a barrier, make calls again.  Every value of
+   the second phase must exceed every value of the first phase (C18_call_order) *)
+Fixpoint max_from (m : Z) (l : list Z) : Z :=
+  match l with [] => m | x :: r => max_from (Z.max m x) r end.
+Fixpoint all_above (m : Z) (l : list Z) : bool :=
+  match l with
+  | [] => true
+  | v :: r => if m <? v then all_above m r else false
+  end.
+Definition phase_ok (firsts seconds : list (list Z)) : bool :=
+  forallb (all_above (fold_left max_from firsts 0)) seconds.
+
 (* Single-thread sequence with the harness' own clock readings around every call:
    sample = (t0, v, t1), t0/t1 = microseconds since the epoch read just before/after the call
    that returned v.  Accepted iff SOME clock reading now in [t0, t1] makes the model return
